@@ -11,6 +11,9 @@ use crate::program::*;
 use crate::world::*;
 use crate::{map_cc, weak_to_cc, with_cc};
 
+/// Marker: an upgrade at the counter limit was refused (returned None) instead of panicking.
+pub struct RefusedAtLimit;
+
 impl World {
     /// `Weak::upgrade` with the C08 oracle. `target`: the object the weak was made from (None = Weak::new()).
     /// Returns the handle index of the parked result, if any.
@@ -25,8 +28,16 @@ impl World {
                 m.objs[o as usize].status == Status::Live && World::count(&m, o) >= MAX_STRONG
             };
             if at_limit {
+                // at the limit an upgrade that would otherwise succeed panics; one that is refused anyway returns None
+                let mut refused = false;
                 self.expect_limit_panic(o, "upgrade", || {
-                    let _ = self.lib(LibCall::Upgrade, || weak_to_cc!(unsafe { &*wptr }, x => x.upgrade()));
+                    match self.lib(LibCall::Upgrade, || weak_to_cc!(unsafe { &*wptr }, x => x.upgrade())) {
+                        Some(cc) => std::mem::forget(cc), // reported by expect_limit_panic as "succeeded"
+                        None => refused = true,
+                    }
+                    if refused {
+                        std::panic::panic_any(RefusedAtLimit);
+                    }
                 });
                 return None;
             }
